@@ -17,7 +17,10 @@ CFG = {
             "punchconn: histories reset → add / refused add / re-add / remove / read / drain on the real PunchPacketConn over a fake "
             "wrapped conn: each read delivers 0..9 packets (QUIC-like, random, punch packets of live / removed / never-registered "
             "attempts and their mutations, 14 kinds of STUN and STUN-looking packets built with pion/stun) from usable and unusable "
-            "source addresses, optionally an error; event buffers of 1..16; `conc`: 1..3 goroutines add/remove volatile attempts and "
+            "source addresses, optionally an error; event buffers of 1..16; `discover`: the real DiscoverWithDemux (the consumer "
+            "of the STUN event channel) runs on the same conn after stray STUN traffic (binding requests, indications, error "
+            "responses, truncated messages, other transactions' responses) was read, the fake server staying silent / answering "
+            "with a binding success / answering another transaction / answering with an error; `conc`: 1..3 goroutines add/remove volatile attempts and "
             "re-add stable ones while the reader cycles through the packets. distinct = distinct op line; non-trivial = a packet was "
             "produced/accepted/returned, an attempt was registered/removed, or events were drained",
     "trusted_base": [
@@ -47,7 +50,8 @@ MANIFEST = {
             "the 25 header bytes are rejected; the decoder never panics; ReadFrom withholds a packet iff it is a STUN binding response "
             "or (usable source and) decodes under a currently registered attempt, and otherwise returns it byte-identical with its "
             "source address; after removal an attempt diverts nothing; for every interleaving of add/remove/recv/scan steps each "
-            "scan's verdict is determined by exactly the registrations and removals before it. Tied to the source by regenerated "
+            "scan's verdict is determined by exactly the registrations and removals before it; every event on the STUN channel "
+            "carries its parsed message, so the consumer (DiscoverWithDemux) never dereferences nil. Tied to the source by regenerated "
             "constants and two differential streams (codec incl. the real encoder under seeded crypto/rand; the real conn incl. "
             "concurrent add/remove while reading).",
     "note": "Trusted: Lean kernel (+leanchecker), axioms propext/Quot.sound/Classical.choice at most; the Go harness and hydrv driver; "
